@@ -24,6 +24,8 @@ type SolveResult struct {
 	Raw    string
 	// Confirm: second solver that agreed (thorough tier)
 	Confirm string
+	// Candidate: model of the relaxed query (quantified assumptions dropped) when the full query is undecided
+	Candidate map[string]string
 }
 
 type solverSpec struct {
